@@ -445,8 +445,56 @@ Qed.
 
 (* ---- tokenize *)
 
+(* Two shapes of the driver loop are known; the theorem about tokenize is
+   proved for each, and `tokenize_shape` (below) checks which of them the
+   translator produced.
+
+   A:  current_token = next_token(text)
+       while current_token is not None:
+           assert current_token.category in TC
+           yield current_token
+           current_token = next_token(text, prev=current_token)
+
+   B:  prev = None
+       while True:
+           current_token = next_token(text, prev=prev)
+           if current_token is None:
+               return
+           assert current_token.category in TC
+           yield current_token
+           prev = current_token *)
+Definition tokenize_A_body : gblock :=
+  GlueDSL.blk [
+    SCall [0] F_next_token true [GNone];
+    SWhile (GIsNotNone (GVar 0))
+      (GlueDSL.blk [
+        SAssert (GCatInTC (GVar 0));
+        SYield (GVar 0);
+        SCall [0] F_next_token true [GVar 0]])].
+Definition tokenize_A : fundef := mkfd true false true 0 [] 1 tokenize_A_body.
+
+Definition tokenize_B_body : gblock :=
+  GlueDSL.blk [
+    SAssign 0 GNone;
+    SWhile (GBool true)
+      (GlueDSL.blk [
+        SCall [1] F_next_token true [GVar 0];
+        SIf (GIsNone (GVar 1)) (GlueDSL.blk [SReturn GNone]) (GlueDSL.blk []);
+        SAssert (GCatInTC (GVar 1));
+        SYield (GVar 1);
+        SAssign 0 (GVar 1)])].
+Definition tokenize_B : fundef := mkfd true false true 0 [] 2 tokenize_B_body.
+
+(* which one was generated (this is the only place that looks at the
+   generated tokenize) *)
+Lemma tokenize_shape : {gen_tokenize = tokenize_A} + {gen_tokenize = tokenize_B}.
+Proof.
+  first [ left; reflexivity | right; reflexivity
+        | fail 1 "the generated tokenize (GlueGen.gen_tokenize) has neither of the two known shapes" ].
+Qed.
+
 Definition tz_parts : option (gs * gx * gblock) :=
-  match gen_tokenize_body with
+  match tokenize_A_body with
   | GCons s0 (GCons (SWhile c wb) GNil) => Some (s0, c, wb)
   | _ => None
   end.
@@ -455,7 +503,7 @@ Definition tz_cond : gx := match tz_parts with Some (_, c, _) => c | None => GNo
 Definition tz_wb : gblock := match tz_parts with Some (_, _, wb) => wb | None => GNil end.
 
 Lemma gen_tokenize_shape :
-  gen_tokenize_body = GCons tz_first (GCons (SWhile tz_cond tz_wb) GNil).
+  tokenize_A_body = GCons tz_first (GCons (SWhile tz_cond tz_wb) GNil).
 Proof. reflexivity. Qed.
 
 (* frames of tokenize: current_token *)
@@ -470,7 +518,7 @@ Lemma tz_body d t b acc o b' : cons_ok b ->
 Proof.
   intros Hc E. pose proof (call_next_token d (Some t) b Hc) as C. rewrite E in C.
   destruct t as [ts tz tk]. unfold tz_wb, tz_frame.
-  cbn [tz_parts gen_tokenize_body blk].
+  cbn [tz_parts tokenize_A_body GlueDSL.blk].
   cbn [prev_val token_val ttext tpos tcat] in C.
   cbn [exec_block exec_stmt eval get_loc nth_error fr_loc fr_text fr_out ebind token_val
        ttext tpos tcat TokDSL.v_cat truthy TokDSL.v_text nonempty used used_vars consume is_iter
@@ -484,7 +532,7 @@ Lemma tz_first_ok d b acc o b' o0 : cons_ok b ->
   = XNormal (tz_frame (Some (prev_val o)) b' acc).
 Proof.
   intros Hc E. pose proof (call_next_token d None b Hc) as C. rewrite E in C.
-  unfold tz_first, tz_frame. cbn [tz_parts gen_tokenize_body blk].
+  unfold tz_first, tz_frame. cbn [tz_parts tokenize_A_body GlueDSL.blk].
   cbn [prev_val] in C.
   cbn [exec_stmt eval fr_text do_call eval_list]. rewrite C. reflexivity.
 Qed.
@@ -545,18 +593,18 @@ Lemma tokenize_is_TL cs : tokenize cs = TL (fresh_text cs) None.
 Proof. reflexivity. Qed.
 
 (* the call tokenize(<fresh Buffer of cs>), at any call depth >= 2 *)
-Lemma call_tokenize d cs : consecutive 0 cs ->
+Lemma call_tokenize_A d cs : gen_tokenize = tokenize_A -> consecutive 0 cs ->
   exists b', call gen_env (S (S d)) F_tokenize [chars_val cs] None
              = CRet (tokens_val (fst (tokenize cs))) (Some b')
              /\ snd (tokenize cs) = TEnd.
 Proof.
-  intro Hc0. pose proof (fresh_text_ok cs Hc0) as Hc.
+  intros HA Hc0. pose proof (fresh_text_ok cs Hc0) as Hc.
   assert (E : call gen_env (S (S d)) F_tokenize [chars_val cs] None
-              = finish gen_tokenize
-                       (exec_block gen_env (call gen_env (S d)) gen_tokenize_body
+              = finish tokenize_A
+                       (exec_block gen_env (call gen_env (S d)) tokenize_A_body
                                    (tz_frame None (fresh_text cs) []))).
-  { cbn [call g_funs gen_env gen_funs]. unfold invoke.
-    cbn [fd_cursor gen_tokenize chars_val items_of]. rewrite all_some_cchar. reflexivity. }
+  { cbn [call g_funs gen_env gen_funs]. rewrite HA. unfold invoke.
+    cbn [fd_cursor tokenize_A chars_val items_of]. rewrite all_some_cchar. reflexivity. }
   rewrite E, gen_tokenize_shape, exec_block_cons. clear E.
   set (b := fresh_text cs) in *.
   destruct (nt_h_good None (length (b_rest b)) b Hc (le_n _)) as (o & b1 & E & Hc1 & Ho).
@@ -571,7 +619,7 @@ Proof.
   destruct (tz_while d (S (length (b_rest b1))) o b1 [] (S (S (length (b_rest b1)))) Hc1) as (b2 & ->).
   { destruct o; cbn [tz_measure]; lia. }
   { lia. }
-  rewrite exec_block_nil. cbn [app finish gen_tokenize fd_gen fr_out fr_text tz_frame].
+  rewrite exec_block_nil. cbn [app finish tokenize_A fd_gen fr_out fr_text tz_frame].
   assert (Et : tokenize cs = (rest_tokens o b1, TEnd)).
   { rewrite tokenize_is_TL. fold b.
     destruct (tokenize_loop_part (S (length (b_rest b))) Tables.punctuation_commands (b_idx b)
@@ -583,6 +631,114 @@ Proof.
     destruct o as [t|]; [|reflexivity].
     cbn [rest_tokens]. destruct (TL b1 (Some t)) as [ts e]. cbn [fst]. inversion Et. reflexivity. }
   rewrite Et. exists b2. split; reflexivity.
+Qed.
+
+
+(* ---- the second shape *)
+
+Definition tzb_wb : gblock :=
+  match tokenize_B_body with
+  | GCons _ (GCons (SWhile _ wb) GNil) => wb
+  | _ => GNil
+  end.
+
+(* frames of tokenize (shape B): prev, current_token *)
+Definition tzb_frame (prev cur : option value) (b : bstate) (acc : list value) : frame :=
+  mkfr [prev; cur] (Some b) acc.
+
+(* one round: next_token(text, prev=prev); return at the end, otherwise
+   assert, yield, prev = current_token *)
+Lemma tzb_body d p b acc o1 o b' : cons_ok b ->
+  nt_h (length (b_rest b)) b p = NRet o b' ->
+  exec_block gen_env (call gen_env (S d)) tzb_wb (tzb_frame (Some (prev_val p)) o1 b acc)
+  = match o with
+    | Some t => XNormal (tzb_frame (Some (token_val t)) (Some (token_val t)) b'
+                                   (acc ++ [token_val t]))
+    | None => XReturn VNone (tzb_frame (Some (prev_val p)) (Some VNone) b' acc)
+    end.
+Proof.
+  intros Hc E. pose proof (call_next_token d p b Hc) as C. rewrite E in C.
+  unfold tzb_wb, tzb_frame. cbn [tokenize_B_body GlueDSL.blk].
+  rewrite exec_block_cons.
+  assert (S1 : exec_stmt gen_env (call gen_env (S d)) (SCall [1] F_next_token true [GVar 0])
+                         (mkfr [Some (prev_val p); o1] (Some b) acc)
+               = XNormal (mkfr [Some (prev_val p); Some (prev_val o)] (Some b') acc)).
+  { cbn [exec_stmt do_call eval_list eval get_loc nth_error fr_loc fr_text]. rewrite C.
+    destruct p as [[ps pz pk]|]; reflexivity. }
+  rewrite S1.
+  destruct o as [[ts tz tk]|]; destruct p as [[ps pz pk]|]; reflexivity.
+Qed.
+
+Lemma tzb_while d : forall n p b o1 acc fuel, cons_ok b ->
+  (length (b_rest b) <= n)%nat -> (n + 1 <= fuel)%nat ->
+  exists b' o0 o1',
+    while_loop (fun fr => eval gen_env fr (GBool true)) (fun fr => used fr (GBool true))
+               (exec_block gen_env (call gen_env (S d)) tzb_wb) fuel
+               (tzb_frame (Some (prev_val p)) o1 b acc)
+    = XReturn VNone (tzb_frame o0 o1' b' (acc ++ map token_val (fst (TL b p)))).
+Proof.
+  induction n as [|n IH]; intros p b o1 acc fuel Hc Hn Hf;
+    (destruct fuel as [|f]; [lia|]); rewrite while_S;
+    change (eval gen_env (tzb_frame (Some (prev_val p)) o1 b acc) (GBool true)) with (EV (VBool true));
+    cbn [truthy];
+    change (used (tzb_frame (Some (prev_val p)) o1 b acc) (GBool true))
+      with (tzb_frame (Some (prev_val p)) o1 b acc);
+    destruct (nt_h_good p (length (b_rest b)) b Hc (le_n _)) as (o & b1 & E & Hc1 & Ho);
+    rewrite (tzb_body d p b acc o1 o b1 Hc E);
+    rewrite (TL_nt p (length (b_rest b)) b Hc (le_n _)), E;
+    (destruct o as [t|];
+     [| exists b1, (Some (prev_val p)), (Some VNone); cbn [fst map]; rewrite app_nil_r; reflexivity]).
+  - lia.
+  - destruct (IH (Some t) b1 (Some (token_val t)) (acc ++ [token_val t]) f Hc1) as (b2 & o0 & o1' & W).
+    { lia. }
+    { lia. }
+    change (Some (token_val t)) with (Some (prev_val (Some t))) at 1.
+    rewrite W. exists b2, o0, o1'.
+    destruct (TL b1 (Some t)) as [ts e]. cbn [fst map]. rewrite <- app_assoc. reflexivity.
+Qed.
+
+Lemma call_tokenize_B d cs : gen_tokenize = tokenize_B -> consecutive 0 cs ->
+  exists b', call gen_env (S (S d)) F_tokenize [chars_val cs] None
+             = CRet (tokens_val (fst (tokenize cs))) (Some b')
+             /\ snd (tokenize cs) = TEnd.
+Proof.
+  intros HB Hc0. pose proof (fresh_text_ok cs Hc0) as Hc.
+  assert (E : call gen_env (S (S d)) F_tokenize [chars_val cs] None
+              = finish tokenize_B
+                       (exec_block gen_env (call gen_env (S d)) tokenize_B_body
+                                   (tzb_frame None None (fresh_text cs) []))).
+  { cbn [call g_funs gen_env gen_funs]. rewrite HB. unfold invoke.
+    cbn [fd_cursor tokenize_B chars_val items_of]. rewrite all_some_cchar. reflexivity. }
+  rewrite E. clear E.
+  set (b := fresh_text cs) in *.
+  assert (Eb : exec_block gen_env (call gen_env (S d)) tokenize_B_body (tzb_frame None None b [])
+               = match while_loop (fun fr => eval gen_env fr (GBool true))
+                                  (fun fr => used fr (GBool true))
+                                  (exec_block gen_env (call gen_env (S d)) tzb_wb)
+                                  (S (S (length (b_rest b))))
+                                  (tzb_frame (Some (prev_val None)) None b []) with
+                 | XNormal fr' => XNormal fr'
+                 | x => x
+                 end) by reflexivity.
+  rewrite Eb. clear Eb.
+  destruct (tzb_while d (length (b_rest b)) None b None [] (S (S (length (b_rest b)))) Hc (le_n _))
+    as (b2 & o0 & o1' & ->).
+  { lia. }
+  cbn [app finish tokenize_B fd_gen fr_out fr_text tzb_frame].
+  rewrite tokenize_is_TL. fold b. exists b2. split; [reflexivity|].
+  destruct (tokenize_loop_part (S (length (b_rest b))) Tables.punctuation_commands (b_idx b)
+                               (b_pp b) (b_pc b) None (b_rest b) (Nat.lt_succ_diag_r _) Hc)
+    as (toks & Et & _).
+  change (TL b None = (toks, TEnd)) in Et. rewrite Et. reflexivity.
+Qed.
+
+(* the call tokenize(<fresh Buffer of cs>), at any call depth >= 2 *)
+Lemma call_tokenize d cs : consecutive 0 cs ->
+  exists b', call gen_env (S (S d)) F_tokenize [chars_val cs] None
+             = CRet (tokens_val (fst (tokenize cs))) (Some b')
+             /\ snd (tokenize cs) = TEnd.
+Proof.
+  destruct tokenize_shape as [H|H]; [exact (call_tokenize_A d cs H) | exact (call_tokenize_B d cs H)].
 Qed.
 
 (* TOKENIZE: the translated driver, run over the translated rules, is the
@@ -687,8 +843,67 @@ Proof. vm_compute. reflexivity. Qed.
 
 (* ============================================================== categorize *)
 
+(* Two shapes of categorize are known (k: the start of enumerate, which is
+   irrelevant because Token(char, position, ..) ignores the position when
+   char is a Token already):
+
+   A:  for position, char in enumerate(text, k):
+           value = None
+           for cc, values in CATEGORY_CODES.items():
+               if char in values:
+                   value = char
+                   break
+           if value is None: yield Token(char, position, CC.Other)
+           else:             yield Token(char, position, cc)
+
+   B:  (a helper with `for ..: if char in chars: return code` / `return
+       CC.Other`, inlined by the translator)
+       for position, char in enumerate(text, k):
+           result = CC.Other
+           for code, chars in CATEGORY_CODES.items():
+               if char in chars:
+                   result = code
+                   break
+           yield Token(char, position, result) *)
+Definition categorize_A_body (k : Z) : gblock :=
+  GlueDSL.blk [
+    SFor [1; 2] (GEnumerate (GVar 0) k)
+      (GlueDSL.blk [
+        SAssign 3 GNone;
+        SFor [4; 5] GCategoryItems
+          (GlueDSL.blk [
+            SIf (GIn (GVar 2) (GVar 5))
+              (GlueDSL.blk [SAssign 3 (GVar 2); SBreak])
+              (GlueDSL.blk [])]);
+        SIf (GIsNone (GVar 3))
+          (GlueDSL.blk [SYield (GNewToken (GVar 2) (GVar 1) (GCat COther))])
+          (GlueDSL.blk [SYield (GNewToken (GVar 2) (GVar 1) (GVar 4))])])].
+Definition categorize_A (k : Z) : fundef := mkfd false true true 1 [] 6 (categorize_A_body k).
+
+Definition categorize_B_body (k : Z) : gblock :=
+  GlueDSL.blk [
+    SFor [1; 2] (GEnumerate (GVar 0) k)
+      (GlueDSL.blk [
+        SAssign 3 (GCat COther);
+        SFor [4; 5] GCategoryItems
+          (GlueDSL.blk [
+            SIf (GIn (GVar 2) (GVar 5))
+              (GlueDSL.blk [SAssign 3 (GVar 4); SBreak])
+              (GlueDSL.blk [])]);
+        SYield (GNewToken (GVar 2) (GVar 1) (GVar 3))])].
+Definition categorize_B (k : Z) : fundef := mkfd false true true 1 [] 6 (categorize_B_body k).
+
+(* which one was generated (the only place that looks at the generated
+   categorize) *)
+Lemma categorize_shape :
+  {k : Z | gen_categorize = categorize_A k} + {k : Z | gen_categorize = categorize_B k}.
+Proof.
+  first [ left; eexists; reflexivity | right; eexists; reflexivity
+        | fail 1 "the generated categorize (GlueGen.gen_categorize) has neither of the two known shapes" ].
+Qed.
+
 Definition cat_parts : option (list var * gx * gs * list var * gx * gblock * gs) :=
-  match gen_categorize_body with
+  match categorize_A_body 0 with
   | GCons (SFor xs it (GCons s0 (GCons (SFor ys it2 inner) (GCons s2 GNil)))) GNil =>
     Some (xs, it, s0, ys, it2, inner, s2)
   | _ => None
@@ -701,9 +916,9 @@ Definition cat_it2 : gx := match cat_parts with Some (_, _, _, _, x, _, _) => x 
 Definition cat_inner : gblock := match cat_parts with Some (_, _, _, _, _, x, _) => x | None => GNil end.
 Definition cat_s2 : gs := match cat_parts with Some (_, _, _, _, _, _, x) => x | None => SPass end.
 
-Lemma gen_categorize_shape :
-  gen_categorize_body
-  = GCons (SFor cat_xs cat_it
+Lemma categorize_A_shape k :
+  categorize_A_body k
+  = GCons (SFor cat_xs (GEnumerate (GVar 0) k)
              (GCons cat_s0 (GCons (SFor cat_ys cat_it2 cat_inner) (GCons cat_s2 GNil)))) GNil.
 Proof. reflexivity. Qed.
 
@@ -821,11 +1036,6 @@ Qed.
 
 End Categorize.
 
-Definition cat_start : Z := match cat_it with GEnumerate (GVar 0) k => k | _ => 0%Z end.
-
-Lemma cat_it_shape : cat_it = GEnumerate (GVar 0) cat_start.
-Proof. reflexivity. Qed.
-
 Lemma exec_for_enum env callf xs body l k :
   exec_stmt env callf (SFor xs (GEnumerate (GVar 0) k) body)
             (mkfr [Some (VSeq true l None); None; None; None; None; None] None [])
@@ -834,22 +1044,153 @@ Lemma exec_for_enum env callf xs body l k :
 Proof. reflexivity. Qed.
 
 (* the call categorize(s), at any call depth >= 1 *)
-Lemma call_categorize d (s : str) :
+Lemma call_categorize_A d (s : str) k : gen_categorize = categorize_A k ->
   call gen_env (S d) F_categorize [VStr s] None = CRet (chars_val (categorize s)) None.
 Proof.
-  cbn [call g_funs gen_env gen_funs]. unfold invoke.
-  cbn [fd_cursor fd_conv_in gen_categorize conv_in fill_args fd_params fd_defaults length Nat.ltb
+  intro HA. cbn [call g_funs gen_env gen_funs]. rewrite HA. unfold invoke.
+  cbn [fd_cursor fd_conv_in categorize_A conv_in fill_args fd_params fd_defaults length Nat.ltb
        Nat.leb fd_nlocals fd_body map app skipn Nat.sub repeat].
-  rewrite gen_categorize_shape, exec_block_cons.
+  rewrite categorize_A_shape, exec_block_cons.
   match goal with
   | |- context [exec_stmt _ _ _ ?fr] =>
     change fr with (mkfr [Some (VSeq true (str_tokens 0 s) None); None; None; None; None; None]
                          None [])
   end.
-  rewrite cat_it_shape, exec_for_enum. fold (cat_frame None None None None None []).
-  destruct (cat_outer_loop (call gen_env d) s 0%Z cat_start None None None None None [])
+  rewrite exec_for_enum. fold (cat_frame None None None None None []).
+  destruct (cat_outer_loop (call gen_env d) s 0%Z k None None None None None [])
     as (a1 & a2 & a3 & a4 & a5 & ->).
   reflexivity.
+Qed.
+
+(* ---- the second shape *)
+
+Definition catb_parts : option (gs * gblock * gs) :=
+  match categorize_B_body 0 with
+  | GCons (SFor _ _ (GCons s0 (GCons (SFor _ _ inner) (GCons s2 GNil)))) GNil => Some (s0, inner, s2)
+  | _ => None
+  end.
+Definition catb_s0 : gs := match catb_parts with Some (x, _, _) => x | None => SPass end.
+Definition catb_inner : gblock := match catb_parts with Some (_, x, _) => x | None => GNil end.
+Definition catb_s2 : gs := match catb_parts with Some (_, _, x) => x | None => SPass end.
+
+Lemma categorize_B_shape k :
+  categorize_B_body k
+  = GCons (SFor [1; 2]%nat (GEnumerate (GVar 0) k)
+             (GCons catb_s0 (GCons (SFor [4; 5]%nat GCategoryItems catb_inner) (GCons catb_s2 GNil)))) GNil.
+Proof. reflexivity. Qed.
+
+Section CategorizeB.
+Variable callf : fname -> list value -> option bstate -> cres.
+
+(* frames: text (consumed by enumerate), position, char, result, code, chars *)
+
+(* the inner loop leaves in `result` the category of the first table (in dict
+   order) that contains the character, or what it held before *)
+Lemma catb_inner_loop c p o1 acc : forall tbl r0 o4 o5,
+  exists o4' o5',
+    for_loop [4; 5]%nat (exec_block gen_env callf catb_inner) (cat_items tbl)
+             (cat_frame o1 (Some (raw_char c p)) (Some (VCat r0)) o4 o5 acc)
+    = XNormal (cat_frame o1 (Some (raw_char c p))
+                         (Some (VCat (match lookup_cat tbl c with Some k => k | None => r0 end)))
+                         o4' o5' acc).
+Proof.
+  induction tbl as [|[k vs] tbl IH]; intros r0 o4 o5.
+  - exists o4, o5. reflexivity.
+  - cbn [cat_items map fst snd lookup_cat]. rewrite for_loop_cons.
+    change (bind_targets (cat_frame o1 (Some (raw_char c p)) (Some (VCat r0)) o4 o5 acc) [4; 5]%nat
+                         (VTuple [VCat k; VChars vs]))
+      with (Some (cat_frame o1 (Some (raw_char c p)) (Some (VCat r0)) (Some (VCat k))
+                            (Some (VChars vs)) acc)).
+    cbv beta iota.
+    assert (Eb : exec_block gen_env callf catb_inner
+                   (cat_frame o1 (Some (raw_char c p)) (Some (VCat r0)) (Some (VCat k))
+                              (Some (VChars vs)) acc)
+                 = if mem_N c vs
+                   then XBreak (cat_frame o1 (Some (raw_char c p)) (Some (VCat k)) (Some (VCat k))
+                                          (Some (VChars vs)) acc)
+                   else XNormal (cat_frame o1 (Some (raw_char c p)) (Some (VCat r0)) (Some (VCat k))
+                                           (Some (VChars vs)) acc)).
+    { unfold catb_inner, cat_frame, raw_char. cbn. destruct (mem_N c vs); reflexivity. }
+    rewrite Eb. destruct (mem_N c vs); cbv beta iota.
+    + exists (Some (VCat k)), (Some (VChars vs)). reflexivity.
+    + fold (cat_items tbl). apply IH.
+Qed.
+
+Lemma catb_outer_step c p q o1 o2 o3 o4 o5 acc :
+  exists o3' o4' o5',
+    match bind_targets (cat_frame o1 o2 o3 o4 o5 acc) [1; 2]%nat (VTuple [VInt q; raw_char c p]) with
+    | Some fr1 =>
+      exec_block gen_env callf
+                 (GCons catb_s0 (GCons (SFor [4; 5]%nat GCategoryItems catb_inner) (GCons catb_s2 GNil)))
+                 fr1
+    | None => XUnsup
+    end
+    = XNormal (cat_frame (Some (VInt q)) (Some (raw_char c p)) o3' o4' o5'
+                         (acc ++ [cchar_val (mkc c p (categorize_char c))])).
+Proof.
+  change (bind_targets (cat_frame o1 o2 o3 o4 o5 acc) [1; 2]%nat (VTuple [VInt q; raw_char c p]))
+    with (Some (cat_frame (Some (VInt q)) (Some (raw_char c p)) o3 o4 o5 acc)).
+  cbv beta iota. rewrite exec_block_cons.
+  change (exec_stmt gen_env callf catb_s0 (cat_frame (Some (VInt q)) (Some (raw_char c p)) o3 o4 o5 acc))
+    with (XNormal (cat_frame (Some (VInt q)) (Some (raw_char c p)) (Some (VCat COther)) o4 o5 acc)).
+  cbv beta iota. rewrite exec_block_cons.
+  change (exec_stmt gen_env callf (SFor [4; 5]%nat GCategoryItems catb_inner)
+                    (cat_frame (Some (VInt q)) (Some (raw_char c p)) (Some (VCat COther)) o4 o5 acc))
+    with (for_loop [4; 5]%nat (exec_block gen_env callf catb_inner) (cat_items Tables.category_table)
+                   (cat_frame (Some (VInt q)) (Some (raw_char c p)) (Some (VCat COther)) o4 o5 acc)).
+  destruct (catb_inner_loop c p (Some (VInt q)) acc Tables.category_table COther o4 o5)
+    as (o4' & o5' & ->).
+  fold (categorize_char c). eexists _, o4', o5'. rewrite exec_block_cons.
+  unfold catb_s2, cat_frame, raw_char. cbn. rewrite cc_value_nonzero. reflexivity.
+Qed.
+
+Lemma catb_outer_loop : forall s p q o1 o2 o3 o4 o5 acc,
+  exists o1' o2' o3' o4' o5',
+    for_loop [1; 2]%nat
+             (exec_block gen_env callf
+                (GCons catb_s0 (GCons (SFor [4; 5]%nat GCategoryItems catb_inner) (GCons catb_s2 GNil))))
+             (enum_from q (str_tokens p s)) (cat_frame o1 o2 o3 o4 o5 acc)
+    = XNormal (cat_frame o1' o2' o3' o4' o5' (acc ++ map cchar_val (categorize_from p s))).
+Proof.
+  induction s as [|c s IH]; intros p q o1 o2 o3 o4 o5 acc.
+  - exists o1, o2, o3, o4, o5. cbn. rewrite app_nil_r. reflexivity.
+  - cbn [str_tokens enum_from categorize_from map]. rewrite for_loop_cons.
+    destruct (catb_outer_step c p q o1 o2 o3 o4 o5 acc) as (o3' & o4' & o5' & E).
+    fold (raw_char c p).
+    destruct (bind_targets (cat_frame o1 o2 o3 o4 o5 acc) [1; 2]%nat (VTuple [VInt q; raw_char c p]));
+      [|discriminate E].
+    rewrite E.
+    destruct (IH (p + 1)%Z (q + 1)%Z (Some (VInt q)) (Some (raw_char c p)) o3' o4' o5'
+                 (acc ++ [cchar_val (mkc c p (categorize_char c))]))
+      as (a1 & a2 & a3 & a4 & a5 & ->).
+    exists a1, a2, a3, a4, a5. rewrite <- app_assoc. reflexivity.
+Qed.
+
+End CategorizeB.
+
+Lemma call_categorize_B d (s : str) k : gen_categorize = categorize_B k ->
+  call gen_env (S d) F_categorize [VStr s] None = CRet (chars_val (categorize s)) None.
+Proof.
+  intro HB. cbn [call g_funs gen_env gen_funs]. rewrite HB. unfold invoke.
+  cbn [fd_cursor fd_conv_in categorize_B conv_in fill_args fd_params fd_defaults length Nat.ltb
+       Nat.leb fd_nlocals fd_body map app skipn Nat.sub repeat].
+  rewrite categorize_B_shape, exec_block_cons.
+  match goal with
+  | |- context [exec_stmt _ _ _ ?fr] =>
+    change fr with (mkfr [Some (VSeq true (str_tokens 0 s) None); None; None; None; None; None]
+                         None [])
+  end.
+  rewrite exec_for_enum. fold (cat_frame None None None None None []).
+  destruct (catb_outer_loop (call gen_env d) s 0%Z k None None None None None [])
+    as (a1 & a2 & a3 & a4 & a5 & ->).
+  reflexivity.
+Qed.
+
+Lemma call_categorize d (s : str) :
+  call gen_env (S d) F_categorize [VStr s] None = CRet (chars_val (categorize s)) None.
+Proof.
+  destruct categorize_shape as [[k H]|[k H]];
+    [exact (call_categorize_A d s k H) | exact (call_categorize_B d s k H)].
 Qed.
 
 (* CATEGORIZE: every character gets exactly one token, with its own index and
